@@ -1,7 +1,9 @@
 // Command seqdiff: sequential differential drivers. Every case prints
-//   REQ <request line for garr_model>
-//   IMPL <what the real implementation answered, canonical>
-//   MON ok | MON FAIL <reason>       (property monitor, independent of the Lean model)
+//
+//	REQ <request line for garr_model>
+//	IMPL <what the real implementation answered, canonical>
+//	MON ok | MON FAIL <reason>       (property monitor, independent of the Lean model)
+//
 // The orchestrator pipes the REQ lines to the compiled Lean model and compares with IMPL.
 package main
 
